@@ -436,6 +436,11 @@ def _case_reshard(ctx: Ctx, inp, suite="reshard", verbose=False):
     try:
         with cm:
             entry, wrs = P.prepare_write("st", src)
+        if inp.get("batch") is not None:
+            # Snapshot.take's default path: small shard writes are packed into slabs, so several shards of one
+            # tensor share a file and differ only by byte range
+            from torchsnapshot.batcher import batch_write_requests
+            _, wrs = batch_write_requests(entries=[entry], write_reqs=wrs, slab_size_threshold_bytes=inp["batch"])
         store = {}
 
         async def write_all():
@@ -676,7 +681,8 @@ def _rand_reshard_input(rng):
         drop = sorted(rng.sample(range(6), rng.randint(1, 3)))
     return {"kind": "reshard", "shape": shape, "dtype": dtype, "src": src,
             "spec_dim": rng.choice([None, None] + list(range(nd))), "max": mx, "perm_seed": rng.randrange(1000), "drop": drop,
-            "dst": _rand_dst(rng, shape), "order_seed": rng.randrange(1000), "executor": rng.random() < 0.15}
+            "dst": _rand_dst(rng, shape), "order_seed": rng.randrange(1000), "executor": rng.random() < 0.15,
+            "batch": rng.choice([None, None, 10 ** 9, 10 ** 9, numel * ELEM[dtype] + 1, max(numel * ELEM[dtype] // 2, 1)])}
 
 
 def _reshard_suite(ctx: Ctx):
@@ -696,7 +702,8 @@ def _reshard_suite(ctx: Ctx):
             mx = rng.choice([None, 1, 2, rng.randint(1, numel + 1)])
             _case_reshard(ctx, {"kind": "reshard", "shape": shape, "dtype": "uint8", "src": gs, "spec_dim": rng.choice([None] + list(range(len(shape)))),
                                 "max": mx, "perm_seed": done, "drop": [],
-                                "dst": {"type": "sharded", "shape": shape, "boxes": gd}, "order_seed": done, "executor": False},
+                                "dst": {"type": "sharded", "shape": shape, "boxes": gd}, "order_seed": done, "executor": False,
+                                "batch": (10 ** 9 if done % 2 else None)},
                           "reshard_exhaustive")
             done += 1
         ctx.count(f"reshard.exhaustive.shape{'x'.join(map(str, shape))}.pairs", done)
